@@ -33,7 +33,7 @@ KeyboardInterrupt after closing the channel and ignores EOFError, `Reply.run` ca
 the receiver's epilogue runs `_finished_receiving` before `_terminate_execution` before closing the io -/
 theorem C11_handlers_pinned :
     Generated.serveHandlers = [("KeyboardInterrupt", false)] ∧
-    Generated.executetaskHandlers = [("KeyboardInterrupt", true), ("EOFError", false), ("BaseException", false)] ∧
+    Generated.executetaskHandlers = [("KeyboardInterrupt", true), ("BaseException", false)] ∧
     Generated.replyRunHandlers = [("BaseException", false)] ∧
     Generated.receiverEpilogue = ["_finished_receiving()", "_terminate_execution()", "close_read()",
       "close_write()", "trigger_shutdown()"] := by decide
